@@ -190,6 +190,18 @@ func runClientCases(seed uint64, n int, workers int, big bool, res *Result) []ce
 					e, w = uint(1+r.Intn(2)), uint(1+r.Intn(2))
 					mc.SetEncoding(modbus.Endianness(e), modbus.WordOrder(w))
 				}
+				if r.Chance(1, 12) {
+					// a refused SetEncoding (one valid, one invalid selector, or both invalid) must leave the
+					// configured encoding untouched: the tracked (e, w) stay as they are
+					be, bw := uint(1+r.Intn(2)), uint(pickInt(r, []int{0, 3, 7}))
+					if r.Bool() {
+						be, bw = uint(pickInt(r, []int{0, 3, 9})), uint(1+r.Intn(2))
+					}
+					if err := mc.SetEncoding(modbus.Endianness(be), modbus.WordOrder(bw)); err == nil {
+						res.Add(Finding{Kind: "property", Check: "setencoding", Line: fmt.Sprintf("SetEncoding(%d,%d)", be, bw), Impl: "nil", Expect: "ErrUnexpectedParameters"})
+					}
+					res.Count("refused-setencoding")
+				}
 				op := genOp(r, big && r.Chance(1, 6))
 				if r.Chance(3, 4) {
 					conn.Arm(nil, "timeout")
